@@ -133,6 +133,19 @@ func cmdCheck(args []string) {
 		vc.finishAxioms()
 		vcs = append(vcs, vc)
 	}
+	// package initializers of packages that declare global invariants
+	initPkgs := map[string]bool{}
+	for _, gi := range w.cs.GlobalInvs {
+		initPkgs[gi.Pkg] = true
+	}
+	for _, fn := range w.repoFunctions() {
+		if fn.Synthetic != "" && fn.Name() == "init" && fn.Pkg != nil && initPkgs[fn.Pkg.Pkg.Path()] {
+			vc := w.NewVC(fn, nil)
+			vc.Generate()
+			vc.finishAxioms()
+			vcs = append(vcs, vc)
+		}
+	}
 	for _, n := range w.cs.LemmaOrder {
 		vc := w.lemmaVC(w.cs.Lemmas[n])
 		vc.finishAxioms()
